@@ -103,6 +103,10 @@ def to_casadi(e, sym):
     """sym(kind, index_or_None) -> casadi scalar expression"""
     import casadi as ca
     k = e[0]
+    if k == 'pinf':
+        return ca.MX(float('inf'))
+    if k == 'ninf':
+        return ca.MX(float('-inf'))
     if k == 'c':
         f = e[1]
         if f.denominator == 1:
